@@ -226,6 +226,11 @@ pub fn conncfg(r: &mut Rng, ascii_only: bool) -> ConnCfg {
 
 /// the NLA configuration of a server that knows the account `c` authenticates as
 pub fn nla_cfg(r: &mut Rng, c: &ConnCfg) -> NlaCfg {
+    nla_cfg_opts(r, c, true)
+}
+
+/// `timestamp` false: the server's target info carries no MsvAvTimestamp pair (servers older than Vista / 2008)
+pub fn nla_cfg_opts(r: &mut Rng, c: &ConnCfg, timestamp: bool) -> NlaCfg {
     let mut n = NlaCfg::default();
     let h: [u8; 16] = match &c.hash {
         Some(h) if h.len() == 16 => {
@@ -252,7 +257,10 @@ pub fn nla_cfg(r: &mut Rng, c: &ConnCfg) -> NlaCfg {
             pairs.push((*id, r.bytes(l)));
         }
     }
-    pairs.push((7, r.bytes(8)));
+    let ts = r.bytes(8);
+    if timestamp {
+        pairs.push((7, ts));
+    }
     for i in (1..pairs.len()).rev() {
         let j = r.below(i as u64 + 1) as usize;
         pairs.swap(i, j);
